@@ -74,6 +74,7 @@ def run(ctx):
         ctx.count('corpus')
         replay(ctx, rec)
     batch = []
+    full = S.FullTie(ctx, max_cases=ctx.n(250, 3000))      # per library
     for name, lib in libs_:
         kind = 'gas' if name in ('BensonGA', 'PPY') else 'surface'
         mols = list(G.FIXED_GAS if kind == 'gas' else G.FIXED_SURFACE + G.FIXED_GAS[:20])
@@ -100,6 +101,10 @@ def run(ctx):
                 mol = S.prepare(sp)
                 if mol is not None and len(batch) < ctx.n(600, 6000):
                     batch.append((S.scheme_input(lib.scheme, mol), r, {'scheme': name, 'smiles': sp}))
+                # second tie: the end-to-end model on this spelling's own raw graph (its own atom numbering and ring order)
+                if not r.get('err', '').startswith('internal'):
+                    full.add(lib, sp, r, {'scheme': name, 'smiles': sp}, S.impl_atoms(lib) if 'ok' in r else None,
+                             S.hook_graph(lib) if 'ok' in r else None)
             # (b) molecule object vs SMILES
             m = Chem.MolFromSmiles(smi)
             if m is not None:
@@ -112,6 +117,9 @@ def run(ctx):
                 r2 = S.impl_descriptors(lib, m2)
                 ctx.case((name, s2, 'mol-renumbered'), None)
                 compare(ctx, name, lib, smi, base, m2, r2, 'mol-renumbered')
+                if not r2.get('err', '').startswith('internal'):
+                    full.add(lib, m2, r2, {'scheme': name, 'smiles': s2, 'form': 'mol-renumbered'},
+                             S.impl_atoms(lib) if 'ok' in r2 else None, S.hook_graph(lib) if 'ok' in r2 else None)
                 # (d) all permutations for small molecules
                 nh = m.GetNumAtoms()
                 if ctx.thorough() and 2 <= nh <= 5:
@@ -122,6 +130,8 @@ def run(ctx):
                         ctx.case((name, sp), None)
                         ctx.count('permutations')
                         compare(ctx, name, lib, smi, base, sp, r, 'permutation')
+        full.run()
+    full.run()
     replies = ctx.model([b[0] for b in batch])
     if replies is not None:
         for (req, impl, where), rep in zip(batch, replies):
